@@ -17,6 +17,14 @@ mod c09;
 use libfuzzer_sys::fuzz_target;
 
 fuzz_target!(|data: &[u8]| {
+    // libfuzzer-sys aborts inside its panic hook, before any catch_unwind of the oracles can classify the panic:
+    // replace the hook once (a panic that escapes the target still aborts in libfuzzer-sys's own wrapper)
+    static HOOK: std::sync::Once = std::sync::Once::new();
+    HOOK.call_once(|| std::panic::set_hook(Box::new(|info| eprintln!("panic: {info}"))));
+    // process-global switches of the code under test, reset at the top of every iteration
+    pest::set_call_limit(None);
+    pest::set_error_detail(false);
+    pest_meta::validator::verif::reset(usize::MAX);
     let Ok(text) = std::str::from_utf8(data) else { return };
     let mut ctx = fw::Ctx::bare("C09");
     if let Err(f) = c09::check_text(&mut ctx, text, "libfuzzer") {
